@@ -18,6 +18,8 @@ EXPLANATION = (
     " Added in rounds 6 and 7: The Reader.rows table also compares the cursor line of every validated row, so the"
     " error of row k is the same in every mode. (O6.5) an ODS file that is empty, no archive, lacks content.xml or"
     " holds malformed XML ends in DataFormatError before any row (C15's table)."
+    " Added in round 10: (O6.6) validate_row raises nothing but data errors - another exception is neither"
+    " collected by 'yield' nor skipped by 'continue'."
 )
 ASSUMPTIONS = ["csv / xlrd / ElementTree detect malformed containers (not decided here); which exceptions the raw readers convert is C10's escape analysis"]
 
